@@ -33,10 +33,10 @@ func AnyOf(name string, gs ...Guard) Guard {
 
 // CutResult is the outcome of a guard-cut reachability query.
 type CutResult struct {
-	Reachable bool     // sink still reachable with all success edges removed
-	Instances []string // positions of the If instructions that matched
-	Witness   []string // surviving path, one entry per block
-	Avoided   int      // number of times a required-effect block stopped the traversal
+	Reachable bool            // sink still reachable with all success edges removed
+	Instances []string        // positions of the If instructions that matched
+	Witness   []string        // surviving path, one entry per block
+	Avoided   int             // number of times a required-effect block stopped the traversal
 	Edges     map[[2]int]bool // traversed CFG edges (block indices), filled when no sink is given
 }
 
@@ -86,227 +86,284 @@ func CutReachFrom(p *Prog, fn *ssa.Function, start *ssa.BasicBlock, g Guard, avo
 		chain  []*ssa.Call               // calls (in enclosing frames) the traversal is inside of
 		idx    int                       // instruction index to resume the block at
 		rets   map[*ssa.Call]*ssa.Return // helper calls completed on this path -> the return taken
+		facts  map[ssa.Value]bool        // values known non-nil (true) / nil (false) from the tests passed on this path
 	}
 	var nodes []node
 	seen := map[cutState]bool{}
+	var curFacts map[ssa.Value]bool
 	pushAt := func(b *ssa.BasicBlock, env map[*ssa.Phi]ssa.Value, parent int, via string, chain []*ssa.Call, idx int, rets map[*ssa.Call]*ssa.Return) {
-		st := cutState{b, encodeEnv(env) + encodeFrames(chain, idx, rets)}
+		st := cutState{b, encodeEnv(env) + encodeFrames(chain, idx, rets) + encodeFacts(curFacts)}
 		if seen[st] {
 			return
 		}
 		seen[st] = true
-		nodes = append(nodes, node{st, env, parent, via, chain, idx, rets})
+		nodes = append(nodes, node{st, env, parent, via, chain, idx, rets, curFacts})
 	}
 	if start == nil {
 		start = fn.Blocks[0]
 	}
-	pushAt(start, map[*ssa.Phi]ssa.Value{}, -1, "start", nil, 0, nil)
+	curFacts = StartFacts
+	pushAt(start, map[*ssa.Phi]ssa.Value{}, -1, "start", nil, StartIdx, nil)
 	for qi := 0; qi < len(nodes); qi++ {
 		n := nodes[qi]
 		b := n.st.block
+		curFacts = n.facts
+		savedNilFacts := nilFacts
+		nilFacts = n.facts
 		push := func(sb *ssa.BasicBlock, env map[*ssa.Phi]ssa.Value, parent int, via string) {
 			pushAt(sb, env, parent, via, n.chain, 0, n.rets)
 		}
 		stop := false
 		var result *CutResult
 		withFrames(n.chain, n.rets, func() {
-		if n.idx == 0 && isSink[b] && !(qi == 0 && start != fn.Blocks[0] && skipStartSink) {
-			res.Reachable = true
-			// reconstruct
-			var path []string
-			for i := qi; i >= 0; i = nodes[i].parent {
-				nb := nodes[i].st.block
-				path = append(path, fmt.Sprintf("b%d(%s) %s", nb.Index, blockPos(p, nb), nodes[i].via))
-			}
-			for i, j := 0, len(path)-1; i < j; i, j = i+1, j-1 {
-				path[i], path[j] = path[j], path[i]
-			}
-			res.Witness = path
-			result = &res
-			return
-		}
-		// helper calls in this block: continue inside the helper, with its
-		// parameters standing for the arguments; the block resumes after the
-		// call when the helper returns
-		if nestedLoopProbe == 0 || true {
-			for k := n.idx; k < len(b.Instrs); k++ {
-				call, isCall := b.Instrs[k].(*ssa.Call)
-				if !isCall {
-					continue
+			// a sink block is reached at its start - except a block that ends in a
+			// return and first calls helpers that the traversal enters ("return
+			// check(x)"): the sink is then the return itself, reached when the last
+			// helper has returned, and only if the error it returns can be nil
+			sinkNow := false
+			if isSink[b] && !(qi == 0 && start != fn.Blocks[0] && skipStartSink) {
+				ret, endsInReturn := b.Instrs[len(b.Instrs)-1].(*ssa.Return)
+				pending := false
+				for k := n.idx; k < len(b.Instrs); k++ {
+					if call, isCall := b.Instrs[k].(*ssa.Call); isCall && descendable(call, fn, n.chain) != nil {
+						pending = true
+					}
 				}
-				h := descendable(call, fn, n.chain)
-				if h == nil {
-					continue
+				hadHelpers := false
+				for k := 0; k < len(b.Instrs); k++ {
+					if call, isCall := b.Instrs[k].(*ssa.Call); isCall && descendable(call, fn, n.chain) != nil {
+						hadHelpers = true
+					}
 				}
-				entry := h.Blocks[0]
-				if avoid[entry] || (AvoidHook != nil && AvoidHook(entry)) {
-					res.Avoided++
-				} else {
-					pushAt(entry, n.env, qi, "call "+h.Name(), append(append([]*ssa.Call{}, n.chain...), call), 0, n.rets)
-				}
-				stop = true
-				return
-			}
-		}
-		// return from a helper: resume the caller after the call, remembering which return was taken
-		if ret, isRet := b.Instrs[len(b.Instrs)-1].(*ssa.Return); isRet && len(n.chain) > 0 {
-			call := n.chain[len(n.chain)-1]
-			cb := call.Block()
-			ci := 0
-			for k, in := range cb.Instrs {
-				if in == ssa.Instruction(call) {
-					ci = k
-				}
-			}
-			rets := map[*ssa.Call]*ssa.Return{}
-			for k, v := range n.rets {
-				rets[k] = v
-			}
-			rets[call] = ret
-			pushAt(cb, n.env, qi, "return from "+b.Parent().Name(), n.chain[:len(n.chain)-1], ci+1, rets)
-			stop = true
-			return
-		}
-		succs := b.Succs
-		allowed := make([]bool, len(succs))
-		for i := range allowed {
-			allowed[i] = true
-		}
-		via := make([]string, len(succs))
-		if ifi, ok := lastIf(b); ok {
-			via[0], via[1] = "T:"+condText(ifi), "F:"+condText(ifi)
-			if val, known := evalCond(ifi.Cond, n.env); known {
-				if val {
-					allowed[1] = false
-				} else {
-					allowed[0] = false
-				}
-			}
-			s, isCut := MatchCond(g, ifi.Cond, n.env)
-			via2 := ""
-			if !isCut {
-				if s2, ok, hname := summaryMatch(p, g, ifi.Cond, n.env); ok {
-					s, isCut, via2 = s2, true, " (established inside "+hname+")"
-				}
-			}
-			if isCut {
-				allowed[s] = false
-				key := blockPos(p, b) + "/" + condText(ifi) + via2
-				if !instSeen[key] {
-					instSeen[key] = true
-					res.Instances = append(res.Instances, key)
-				}
-			}
-		}
-		// a range loop over a non-empty literal table runs its body at least
-		// once before the loop is left through the header: the exit edge is
-		// feasible only if, under the same cut, an iteration can complete
-		if len(succs) == 2 && allowed[1] && literalRangeHeader(b) && nestedLoopProbe == 0 {
-			key := b
-			done, known := loopCompletes[key]
-			if !known {
-				// every row's iteration must be able to complete
-				ll, _ := LiteralLoopOf(succs[0])
-				done = true
-				probe := func() {
-					nestedLoopProbe++
-					inner := CutReachFrom(p, b.Parent(), succs[0], g, avoid)
-					nestedLoopProbe--
-					completes := false
-					for e := range inner.Edges {
-						if e[1] == b.Index && e[0] != b.Index {
-							if pb := b.Parent().Blocks[e[0]]; b.Dominates(pb) {
-								completes = true
+				switch {
+				case endsInReturn && hadHelpers:
+					if !pending {
+						sinkNow = true
+						if ei := ErrorResultIndex(b.Parent().Signature); ei >= 0 && ei < len(ret.Results) {
+							if op, r2, ok := boundResult(ret.Results[ei]); ok && ValueErrKind(op, r2.Block()) == ErrNonNil {
+								sinkNow = false // this path returns the helper's error
 							}
 						}
 					}
-					if !completes {
-						done = false
+				default:
+					sinkNow = n.idx == 0
+				}
+			}
+			if sinkNow {
+				res.Reachable = true
+				// reconstruct
+				var path []string
+				for i := qi; i >= 0; i = nodes[i].parent {
+					nb := nodes[i].st.block
+					path = append(path, fmt.Sprintf("b%d(%s) %s", nb.Index, blockPos(p, nb), nodes[i].via))
+				}
+				for i, j := 0, len(path)-1; i < j; i, j = i+1, j-1 {
+					path[i], path[j] = path[j], path[i]
+				}
+				res.Witness = path
+				result = &res
+				return
+			}
+			// helper calls in this block: continue inside the helper, with its
+			// parameters standing for the arguments; the block resumes after the
+			// call when the helper returns
+			if nestedLoopProbe == 0 || true {
+				for k := n.idx; k < len(b.Instrs); k++ {
+					call, isCall := b.Instrs[k].(*ssa.Call)
+					if !isCall {
+						continue
 					}
-					for _, k := range inner.Instances {
-						if !instSeen[k] {
-							instSeen[k] = true
-							res.Instances = append(res.Instances, k)
+					h := descendable(call, fn, n.chain)
+					if h == nil {
+						continue
+					}
+					entry := h.Blocks[0]
+					if avoid[entry] || (AvoidHook != nil && AvoidHook(entry)) {
+						res.Avoided++
+					} else {
+						pushAt(entry, n.env, qi, "call "+h.Name(), append(append([]*ssa.Call{}, n.chain...), call), 0, n.rets)
+					}
+					stop = true
+					return
+				}
+			}
+			// return from a helper: resume the caller after the call, remembering which return was taken
+			if ret, isRet := b.Instrs[len(b.Instrs)-1].(*ssa.Return); isRet && len(n.chain) > 0 {
+				call := n.chain[len(n.chain)-1]
+				cb := call.Block()
+				ci := 0
+				for k, in := range cb.Instrs {
+					if in == ssa.Instruction(call) {
+						ci = k
+					}
+				}
+				rets := map[*ssa.Call]*ssa.Return{}
+				for k, v := range n.rets {
+					rets[k] = v
+				}
+				rets[call] = ret
+				pushAt(cb, n.env, qi, "return from "+b.Parent().Name(), n.chain[:len(n.chain)-1], ci+1, rets)
+				stop = true
+				return
+			}
+			succs := b.Succs
+			allowed := make([]bool, len(succs))
+			for i := range allowed {
+				allowed[i] = true
+			}
+			via := make([]string, len(succs))
+			if ifi, ok := lastIf(b); ok {
+				via[0], via[1] = "T:"+condText(ifi), "F:"+condText(ifi)
+				if val, known := evalCond(ifi.Cond, n.env); known {
+					if val {
+						allowed[1] = false
+					} else {
+						allowed[0] = false
+					}
+				}
+				s, isCut := MatchCond(g, ifi.Cond, n.env)
+				via2 := ""
+				if !isCut {
+					if s2, ok, hname := summaryMatch(p, g, ifi.Cond, n.env); ok {
+						s, isCut, via2 = s2, true, " (established inside "+hname+")"
+					}
+				}
+				if isCut {
+					allowed[s] = false
+					key := blockPos(p, b) + "/" + condText(ifi) + via2
+					if !instSeen[key] {
+						instSeen[key] = true
+						res.Instances = append(res.Instances, key)
+					}
+				}
+			}
+			// a range loop over a non-empty literal table runs its body at least
+			// once before the loop is left through the header: the exit edge is
+			// feasible only if, under the same cut, an iteration can complete
+			if len(succs) == 2 && allowed[1] && literalRangeHeader(b) && nestedLoopProbe == 0 {
+				key := b
+				done, known := loopCompletes[key]
+				if !known {
+					// every row's iteration must be able to complete
+					ll, _ := LiteralLoopOf(succs[0])
+					done = true
+					probe := func() {
+						nestedLoopProbe++
+						inner := CutReachFrom(p, b.Parent(), succs[0], g, avoid)
+						nestedLoopProbe--
+						completes := false
+						for e := range inner.Edges {
+							if e[1] == b.Index && e[0] != b.Index {
+								if pb := b.Parent().Blocks[e[0]]; b.Dominates(pb) {
+									completes = true
+								}
+							}
+						}
+						if !completes {
+							done = false
+						}
+						for _, k := range inner.Instances {
+							if !instSeen[k] {
+								instSeen[k] = true
+								res.Instances = append(res.Instances, k)
+							}
 						}
 					}
-				}
-				if _, bound := rowBind[ll.Table]; ll.Header == b && ll.Rows > 0 && !bound {
-					for k := 0; k < ll.Rows; k++ {
-						WithRow(ll.Table, k, probe)
-					}
-				} else {
-					probe()
-				}
-				loopCompletes[key] = done
-			}
-			if !done {
-				allowed[1] = false
-			}
-		}
-		for i, s := range succs {
-			if !allowed[i] {
-				continue
-			}
-			if (avoid[s] || (AvoidHook != nil && AvoidHook(s))) && !isSink[s] {
-				res.Avoided++
-				continue
-			}
-			if len(sinks) == 0 && len(n.chain) == 0 {
-				if res.Edges == nil {
-					res.Edges = map[[2]int]bool{}
-				}
-				res.Edges[[2]int{b.Index, s.Index}] = true
-			}
-			env := n.env
-			// resolve phis of s for the edge b->s
-			var predIdx = -1
-			cnt := 0
-			for pi, pb := range s.Preds {
-				if pb == b {
-					cnt++
-					if predIdx < 0 {
-						predIdx = pi
-					}
-				}
-			}
-			// If b appears twice in s.Preds (both If edges to the same block),
-			// use the successor position to pick the right pred index.
-			if cnt > 1 {
-				k := 0
-				for pi, pb := range s.Preds {
-					if pb == b {
-						if k == i {
-							predIdx = pi
+					if _, bound := rowBind[ll.Table]; ll.Header == b && ll.Rows > 0 && !bound {
+						for k := 0; k < ll.Rows; k++ {
+							WithRow(ll.Table, k, probe)
 						}
-						k++
+					} else {
+						probe()
 					}
+					loopCompletes[key] = done
+				}
+				if !done {
+					allowed[1] = false
 				}
 			}
-			changed := false
-			for _, in := range s.Instrs {
-				phi, ok := in.(*ssa.Phi)
-				if !ok {
-					break
-				}
-				if !rel[phi] {
+			for i, s := range succs {
+				if !allowed[i] {
 					continue
 				}
-				if !changed {
-					env = copyEnv(env)
-					changed = true
+				if (avoid[s] || (AvoidHook != nil && AvoidHook(s))) && !isSink[s] {
+					res.Avoided++
+					continue
 				}
-				op := phi.Edges[predIdx]
-				// a phi operand that is itself a resolved phi takes that value
-				if pp, ok := op.(*ssa.Phi); ok {
-					if v, ok := n.env[pp]; ok {
-						op = v
+				if len(sinks) == 0 && len(n.chain) == 0 {
+					if res.Edges == nil {
+						res.Edges = map[[2]int]bool{}
+					}
+					res.Edges[[2]int{b.Index, s.Index}] = true
+				}
+				env := n.env
+				// resolve phis of s for the edge b->s
+				var predIdx = -1
+				cnt := 0
+				for pi, pb := range s.Preds {
+					if pb == b {
+						cnt++
+						if predIdx < 0 {
+							predIdx = pi
+						}
 					}
 				}
-				env[phi] = op
+				// If b appears twice in s.Preds (both If edges to the same block),
+				// use the successor position to pick the right pred index.
+				if cnt > 1 {
+					k := 0
+					for pi, pb := range s.Preds {
+						if pb == b {
+							if k == i {
+								predIdx = pi
+							}
+							k++
+						}
+					}
+				}
+				changed := false
+				for _, in := range s.Instrs {
+					phi, ok := in.(*ssa.Phi)
+					if !ok {
+						break
+					}
+					if !rel[phi] {
+						continue
+					}
+					if !changed {
+						env = copyEnv(env)
+						changed = true
+					}
+					op := phi.Edges[predIdx]
+					// a phi operand that is itself a resolved phi takes that value
+					if pp, ok := op.(*ssa.Phi); ok {
+						if v, ok := n.env[pp]; ok {
+							op = v
+						}
+					}
+					env[phi] = op
+				}
+				// remember what the edge taken says about a tested value
+				curFacts = n.facts
+				if ifi, isIf := lastIf(b); isIf && len(succs) == 2 {
+					if v, isNil, ok := nilTestOf(ifi.Cond, n.env); ok {
+						// the true edge (i == 0) of "v == nil" means nil
+						nonNil := (i == 0) != isNil
+						if cur, have := n.facts[v]; !have || cur != nonNil {
+							nf := make(map[ssa.Value]bool, len(n.facts)+1)
+							for k, x := range n.facts {
+								nf[k] = x
+							}
+							nf[v] = nonNil
+							curFacts = nf
+						}
+					}
+				}
+				push(s, env, qi, via[i])
+				curFacts = n.facts
 			}
-			push(s, env, qi, via[i])
-		}
 		})
+		nilFacts = savedNilFacts
 		_ = stop
 		if result != nil {
 			return *result
@@ -489,6 +546,10 @@ func definitelyNonNil(v ssa.Value) bool {
 
 // evalCond evaluates a branch condition under the resolved phi environment.
 func evalCond(c ssa.Value, env map[*ssa.Phi]ssa.Value) (val, known bool) {
+	// the boolean result of a helper traversed on this path is the operand it returned
+	if op, _, ok := boundResult(c); ok && op != c {
+		return evalCond(op, env)
+	}
 	switch x := c.(type) {
 	case *ssa.Const:
 		return ConstBool(x)
@@ -527,6 +588,15 @@ func evalCond(c ssa.Value, env map[*ssa.Phi]ssa.Value) (val, known bool) {
 				}
 				if c, isConst := resolve(op, env).(*ssa.Const); isConst {
 					*side = c
+				}
+			}
+		}
+		if len(nilFacts) > 0 {
+			for _, pair := range [][2]ssa.Value{{l, r}, {r, l}} {
+				if IsNilConst(pair[1]) {
+					if nn, have := nilFacts[stripIface(pair[0])]; have {
+						return (x.Op == token.NEQ) == nn, true
+					}
 				}
 			}
 		}
@@ -982,7 +1052,6 @@ func helperAlwaysErrors(c *ssa.Call, idx int) bool {
 	return true
 }
 
-
 // boolImplies: inside fn, "v evaluates to want" implies the fact g guards.
 // v is a condition g matches directly, a negation, or a short-circuit
 // conjunction/disjunction lowered to a phi: the phi takes the value want only
@@ -1033,7 +1102,6 @@ func boolImplies(p *Prog, fn *ssa.Function, g Guard, v ssa.Value, want bool, dep
 	return (s == 0) == want
 }
 
-
 // nestedLoopProbe is non-zero while the body of a literal-table loop is being
 // probed (probes do not nest).
 var nestedLoopProbe int
@@ -1068,12 +1136,10 @@ func literalRangeHeader(b *ssa.BasicBlock) bool {
 	return ok && n >= 1
 }
 
-
 // AvoidHook, when set, marks further blocks as "required effect passed" - it
 // may consult the current row binding (an effect that concerns one row of a
 // literal-table loop only).
 var AvoidHook func(*ssa.BasicBlock) bool
-
 
 // ---- interprocedural traversal support ----
 
@@ -1226,4 +1292,60 @@ func boundResult(v ssa.Value) (ssa.Value, *ssa.Return, bool) {
 		}
 	}
 	return op, ret, true
+}
+
+
+// nilFacts: what the tests passed on the path being processed say about values (set per node).
+var nilFacts map[ssa.Value]bool
+
+// StartFacts seeds a traversal that starts at a test whose outcome is known;
+// StartIdx is the instruction index in the start block to begin at (after the
+// call whose result the facts describe).
+var StartFacts map[ssa.Value]bool
+var StartIdx int
+
+func stripIface(v ssa.Value) ssa.Value {
+	for i := 0; i < 4; i++ {
+		if ci, ok := v.(*ssa.ChangeInterface); ok {
+			v = ci.X
+			continue
+		}
+		break
+	}
+	return v
+}
+
+// nilTestOf: cond is "v == nil" / "v != nil" for a non-constant v (phis resolved
+// through env); isNil tells whether the true edge means nil.
+func nilTestOf(cond ssa.Value, env map[*ssa.Phi]ssa.Value) (v ssa.Value, isNil bool, ok bool) {
+	bo, isBo := cond.(*ssa.BinOp)
+	if !isBo || (bo.Op != token.EQL && bo.Op != token.NEQ) {
+		return nil, false, false
+	}
+	l, r := resolve(bo.X, env), resolve(bo.Y, env)
+	switch {
+	case IsNilConst(r):
+		v = l
+	case IsNilConst(l):
+		v = r
+	default:
+		return nil, false, false
+	}
+	v = stripIface(v)
+	if _, isConst := v.(*ssa.Const); isConst {
+		return nil, false, false
+	}
+	return v, bo.Op == token.EQL, true
+}
+
+func encodeFacts(f map[ssa.Value]bool) string {
+	if len(f) == 0 {
+		return ""
+	}
+	var parts []string
+	for v, nn := range f {
+		parts = append(parts, fmt.Sprintf("%p=%v", v, nn))
+	}
+	sort.Strings(parts)
+	return "#" + strings.Join(parts, ",")
 }
